@@ -226,6 +226,14 @@ func RunSpawned(match string) int {
 // the library sleeps before acting)
 func RunImmediate() int { time.Sleep(80 * time.Millisecond); return 0 }
 
+// Symbolic clock. Engine: time is a solver variable - time.After(d) expires at clock+d, Advance(dt) moves the clock by a
+// (symbolic) dt >= 0, Now() is the clock. Natively: real time (the harness scales its durations down).
+var clockStart = time.Now()
+
+func SymbolicClock()          { clockStart = time.Now() }
+func Advance(d time.Duration) { time.Sleep(d) }
+func Now() time.Duration      { return time.Since(clockStart) }
+
 // SetTimerLimit (engine only): time.After channels with a constant duration up to d fire by themselves, longer or
 // symbolic ones never do unless the harness fires them (handshake timers stay pending, delayed closes elapse).
 func SetTimerLimit(d time.Duration) {}
